@@ -103,6 +103,26 @@ def h_roundtrip(nr, nc, idk, mdk, zeros):
     same_table('roundtrip:source-unchanged', observe(t), a, type_=True, **sig)
 
 
+def h_after_history(nr, nc, hist):
+    """whatever operation history produced the table: representation states reached through the public API, then write / read"""
+    b = B()
+    t, a = make_table(nr, nc, md='both', zeros=1, type_='OTU table', late_zero=True)
+    t, a = apply_history(t, a, hist)
+    store = new_store()
+    sig = dict(history=hist)
+    _, e = call(lambda: t.to_hdf5(store, 'g', compress=flag('compress'), creation_date=DATE))
+    if e is not None:
+        fail('write:raised', f"{type(e).__name__}: {e}"[:160], **sig)
+        return
+    t2, e = call(lambda: b.Table.from_hdf5(store))
+    if e is not None:
+        fail('read:raised', f"{type(e).__name__}: {e}"[:160], **sig)
+        return
+    same_table('roundtrip', observe(t2), a, type_=True, **sig)
+    coherent('roundtrip:coherent', t2, **sig)
+    same_table('roundtrip:source-unchanged', observe(t), a, type_=True, **sig)
+
+
 def h_compress_equivalence(nr, nc):
     """compress on/off write the same store except for the `compression` argument (model stores compared)"""
     t, a = make_table(nr, nc, md='both', zeros=1, type_='OTU table')
@@ -137,7 +157,7 @@ def h_compress_equivalence(nr, nc):
     prove('compress:same-payload', and_(*claims))
 
 
-HARNESSES = {'roundtrip': h_roundtrip, 'compress_equivalence': h_compress_equivalence}
+HARNESSES = {'roundtrip': h_roundtrip, 'after_history': h_after_history, 'compress_equivalence': h_compress_equivalence}
 
 
 def jobs(tier):
@@ -150,6 +170,9 @@ def jobs(tier):
                     continue
                 out.append(('roundtrip', (nr, nc, idk, mdk, 1 if (idk == 'ascii' and mdk == 'none') else 0)))
         out.append(('compress_equivalence', (nr, nc)))
+        for h in HISTORIES:
+            if h != 'none':
+                out.append(('after_history', (nr, nc, h)))
     if tier == 'quick':
         out.append(('roundtrip', (3, 3, 'greatest-is-short', 'none', 0)))
         out.append(('roundtrip', (2, 3, 'ascii', 'taxonomy', 0)))
